@@ -42,6 +42,7 @@ ABTI_waitlist_wait_and_unlock(ABTI_local **pp_local, ABTI_waitlist *p_waitlist,
             p_waitlist->p_tail->p_next = &thread;
         }
         p_waitlist->p_tail = &thread;
+        ABTI_VERIF_EV(ABTI_VEV_WL_ENQ, p_waitlist, &thread, 0);
 
         /* Non-yieldable thread is waiting here. */
 #ifdef ABT_CONFIG_ACTIVE_WAIT_POLICY
@@ -78,6 +79,7 @@ ABTI_waitlist_wait_and_unlock(ABTI_local **pp_local, ABTI_waitlist *p_waitlist,
             p_waitlist->p_tail->p_next = &p_ythread->thread;
         }
         p_waitlist->p_tail = &p_ythread->thread;
+        ABTI_VERIF_EV(ABTI_VEV_WL_ENQ, p_waitlist, &p_ythread->thread, 1);
 
         /* Suspend the current ULT */
         ABTI_ythread_suspend_unlock(&p_local_xstream, p_ythread, p_lock,
@@ -116,6 +118,7 @@ static inline ABT_bool ABTI_waitlist_wait_timedout_and_unlock(
         thread.p_prev = p_waitlist->p_tail;
     }
     p_waitlist->p_tail = &thread;
+    ABTI_VERIF_EV(ABTI_VEV_WL_ENQ, p_waitlist, &thread, 2);
 
     /* Waiting here. */
     if (p_ythread) {
@@ -178,6 +181,7 @@ timeout:
         (ABTD_atomic_relaxed_load_int(&thread.state) != ABT_THREAD_STATE_READY)
             ? ABT_TRUE
             : ABT_FALSE;
+    ABTI_VERIF_EV(ABTI_VEV_WL_TIMEOUT, p_waitlist, &thread, is_timedout);
     if (is_timedout) {
         /* This thread is still in the list. */
         if (p_waitlist->p_head == &thread) {
@@ -217,6 +221,7 @@ static inline void ABTI_waitlist_signal(ABTI_local *p_local,
                                         ABTI_waitlist *p_waitlist)
 {
     ABTI_thread *p_thread = p_waitlist->p_head;
+    ABTI_VERIF_EV(ABTI_VEV_WL_SIGNAL, p_waitlist, p_thread, 0);
     if (p_thread) {
         ABTI_thread *p_next = p_thread->p_next;
         p_thread->p_next = NULL;
@@ -251,6 +256,7 @@ static inline void ABTI_waitlist_broadcast(ABTI_local *p_local,
         ABT_bool wakeup_nonyieldable = ABT_FALSE;
         do {
             ABTI_thread *p_next = p_thread->p_next;
+            ABTI_VERIF_EV(ABTI_VEV_WL_WAKE, p_waitlist, p_thread, 0);
             p_thread->p_next = NULL;
 
             ABTI_ythread *p_ythread = ABTI_thread_get_ythread_or_null(p_thread);
@@ -268,6 +274,7 @@ static inline void ABTI_waitlist_broadcast(ABTI_local *p_local,
         } while (p_thread);
         p_waitlist->p_head = NULL;
         p_waitlist->p_tail = NULL;
+        ABTI_VERIF_EV(ABTI_VEV_WL_BCAST, p_waitlist, 0, 0);
 #ifndef ABT_CONFIG_ACTIVE_WAIT_POLICY
         if (wakeup_nonyieldable) {
             ABTD_futex_broadcast(&p_waitlist->futex);
